@@ -225,7 +225,7 @@ fn run_case(pre: &Pre, msgs: &[Msg], store: &TensorStore, nontrivial: &mut Vec<b
                 nontrivial.push(success || o1.term != o0.term);
             },
             Msg::Aer { from, term, success, mi } => {
-                if o0.role == RaftState::Leader && *success && *term <= o0.term && members.contains(&from.as_str()) {
+                if o0.role == RaftState::Leader && *success && *term == o0.term && members.contains(&from.as_str()) {
                     let e = acked.entry(from.clone()).or_insert(0);
                     *e = (*e).max(*mi);
                 }
@@ -314,7 +314,108 @@ impl Ctx {
     }
 }
 
-const OBS: [(&str, &str); 9] = [
+// ---------------------------------------------------------------- cluster histories: real nodes, hand-delivered messages
+// C01.history.delayed_ack: the first sentence of the property on whole histories in which the network DELAYS an
+// AppendEntriesResponse across leadership changes ("whatever the network does to messages").  Five real RaftNodes, every
+// message built from the nodes' own public state and delivered by hand; after every step no two nodes may report different
+// entries committed at one position, and a committed position must be held by a majority of the logs.
+struct Cluster { nodes: Vec<RaftNode>, held: Vec<(usize, usize, Message)>, trace: Vec<String> }
+
+impl Cluster {
+    fn new(n: usize) -> Self {
+        let nodes = (0..n).map(|i| {
+            let cfg = RaftConfig { enable_pre_vote: false, enable_fast_path: false, enable_geometric_tiebreak: false, auto_heartbeat: false, ..RaftConfig::default() };
+            let peers: Vec<String> = (0..n).filter(|j| *j != i).map(name).collect();
+            RaftNode::new(name(i), peers, Arc::new(MemoryTransport::new(name(i))), cfg)
+        }).collect();
+        Self { nodes, held: vec![], trace: vec![] }
+    }
+    fn log_of(&self, i: usize) -> Vec<(u64, u64)> { let (_, _, e, _) = self.nodes[i].get_entries_for_follower(&"zz".to_string()); e.iter().map(|x| (x.term, x.index)).collect() }
+    /// candidate i asks the listed voters; true if it ends up leader
+    fn elect(&mut self, i: usize, voters: &[usize]) -> bool {
+        self.nodes[i].start_election();
+        let rv = Message::RequestVote(RequestVote { term: self.nodes[i].current_term(), candidate_id: name(i), last_log_index: self.nodes[i].last_log_index(), last_log_term: self.nodes[i].last_log_term(), state_embedding: emb_vec(0) });
+        for &j in voters {
+            if let Some(resp) = self.nodes[j].handle_message(&name(i), &rv) { let _ = self.nodes[i].handle_message(&name(j), &resp); }
+        }
+        self.trace.push(format!("elect {} term {} voters {:?} -> leader {}", name(i), self.nodes[i].current_term(), voters, self.nodes[i].is_leader()));
+        self.nodes[i].is_leader()
+    }
+    /// leader i sends follower j what get_entries_for_follower says (exactly as send_heartbeats builds it); the response is
+    /// delivered at once, or kept in `held` (a delayed message)
+    fn replicate(&mut self, i: usize, j: usize, hold: bool) {
+        if !self.nodes[i].is_leader() { self.trace.push(format!("replicate {}->{}: not leader, nothing sent", name(i), name(j))); return; }
+        let (prev_log_index, prev_log_term, entries, block_embedding) = self.nodes[i].get_entries_for_follower(&name(j));
+        let ae = Message::AppendEntries(AppendEntries { term: self.nodes[i].current_term(), leader_id: name(i), prev_log_index, prev_log_term, entries, leader_commit: self.nodes[i].commit_index(), block_embedding });
+        let resp = self.nodes[j].handle_message(&name(i), &ae);
+        self.trace.push(format!("replicate {}->{} prev ({prev_log_index},{prev_log_term}) -> {}{}", name(i), name(j), resp_img(&resp), if hold { " [response DELAYED]" } else { "" }));
+        if let Some(r) = resp { if hold { self.held.push((j, i, r)); } else { let _ = self.nodes[i].handle_message(&name(j), &r); } }
+    }
+    fn deliver_held(&mut self) {
+        for (from, to, m) in std::mem::take(&mut self.held) {
+            let _ = self.nodes[to].handle_message(&name(from), &m);
+            self.trace.push(format!("delayed response of {} reaches {}: {}", name(from), name(to), resp_img(&Some(m))));
+        }
+    }
+    fn propose(&mut self, i: usize, k: usize) -> bool {
+        let mut ok = true;
+        for _ in 0..k { ok &= self.nodes[i].propose(Block::default()).is_ok(); }
+        self.trace.push(format!("propose x{k} at {} -> ok {ok}, log {:?}", name(i), self.log_of(i)));
+        ok
+    }
+    /// state-machine safety + "committed means on a majority"
+    fn safety(&self) -> Result<(), String> {
+        let n = self.nodes.len();
+        let logs: Vec<Vec<(u64, u64)>> = (0..n).map(|i| self.log_of(i)).collect();
+        let commits: Vec<u64> = self.nodes.iter().map(RaftNode::commit_index).collect();
+        for i in 0..n {
+            if commits[i] as usize > logs[i].len() { return Err(format!("{} reports commit {} beyond its log {:?}", name(i), commits[i], logs[i])); }
+            for c in 1..=commits[i] as usize {
+                let e = logs[i][c - 1];
+                let holders = (0..n).filter(|j| logs[*j].get(c - 1) == Some(&e)).count();
+                if 2 * holders <= n { return Err(format!("{} reports position {c} committed with entry (term {}, index {}), held by only {holders} of {n} logs: {:?}", name(i), e.0, e.1, logs)); }
+                for j in 0..n {
+                    if j != i && commits[j] as usize >= c && logs[j][c - 1] != e { return Err(format!("{} and {} report different entries committed at position {c}: {:?} vs {:?}", name(i), name(j), e, logs[j][c - 1])); }
+                }
+            }
+        }
+        Ok(())
+    }
+}
+
+/// One history: a (term 1) gets `stale_len` entries onto b only and b's acknowledgement is delayed; c (term 2) replaces them on
+/// a and b by `mid_len` entries of its own; a (term 3, voted by d and e) proposes `new_len` entries and gets them onto d; the
+/// delayed acknowledgement is delivered at step `deliver_at` (0 = at once, i.e. no delay .. 3 = after a's term-3 entries reached d).
+fn delayed_ack_history(stale_len: usize, mid_len: usize, new_len: usize, deliver_at: u8) -> Result<(bool, String), String> {
+    let mut cl = Cluster::new(5);
+    let (a, b, c, d, e) = (0usize, 1usize, 2usize, 3usize, 4usize);
+    let mut check = |cl: &Cluster, at: &str| cl.safety().map_err(|m| format!("after {at}: {m} | history: {}", cl.trace.join(" ; ")));
+    if !cl.elect(a, &[b, c]) { return Err(format!("setup: a not elected | {}", cl.trace.join(" ; "))); }
+    cl.replicate(a, b, false); cl.replicate(a, c, false);            // heartbeats: the leader learns that a quorum answers
+    if !cl.propose(a, stale_len) { return Err(format!("setup: propose refused | {}", cl.trace.join(" ; "))); }
+    cl.replicate(a, b, deliver_at != 0);                              // b holds a's term-1 entries; its acknowledgement is in flight
+    check(&cl, "a replicated to b")?;
+    if !cl.elect(c, &[d, e]) { return Err(format!("setup: c not elected | {}", cl.trace.join(" ; "))); }
+    cl.replicate(c, d, false); cl.replicate(c, e, false);
+    if !cl.propose(c, mid_len) { return Err(format!("setup: propose refused at c | {}", cl.trace.join(" ; "))); }
+    cl.replicate(c, a, false); cl.replicate(c, b, false);            // a and b drop the term-1 entries for c's
+    check(&cl, "c replicated to a and b")?;
+    if deliver_at == 1 { cl.deliver_held(); check(&cl, "delayed ack delivered while a is a follower")?; }
+    if !cl.elect(a, &[d, e]) { return Err(format!("setup: a not re-elected | {}", cl.trace.join(" ; "))); }
+    cl.replicate(a, d, false); cl.replicate(a, e, false);
+    if deliver_at == 2 { cl.deliver_held(); check(&cl, "delayed ack delivered right after a's re-election")?; }
+    if !cl.propose(a, new_len) { return Err(format!("setup: propose refused at a (term 3) | {}", cl.trace.join(" ; "))); }
+    cl.replicate(a, d, false);
+    check(&cl, "a's term-3 entries reached d")?;
+    if deliver_at == 3 { cl.deliver_held(); }
+    check(&cl, "delayed ack delivered after a's term-3 entries reached d")?;
+    let advanced = cl.nodes[a].commit_index() > 0;
+    Ok((advanced, format!("final commits {:?}", cl.nodes.iter().map(RaftNode::commit_index).collect::<Vec<_>>())))
+}
+
+const OBS: [(&str, &str); 10] = [
+    ("C01.history.delayed_ack", "RaftNode::handle_message on five nodes (AppendEntriesResponse delayed across two leadership changes)"),
+
     ("C01.vote.once", "RaftNode::handle_message(RequestVote)"), ("C01.vote.uptodate", "RaftNode::handle_message(RequestVote)"), ("C01.term.monotone", "RaftNode::handle_message (every handler)"),
     ("C01.ae.reject_stale", "RaftNode::handle_message(AppendEntries)"), ("C01.ae.consistency", "RaftNode::handle_message(AppendEntries)"), ("C01.ae.ack_bound", "RaftNode::handle_message(AppendEntries)"),
     ("C01.ae.commit_bound", "RaftNode::handle_message(AppendEntries)"), ("C01.commit.rule", "RaftNode::handle_message(AppendEntriesResponse) / try_advance_commit_index"),
@@ -409,6 +510,18 @@ pub fn run(tier: Tier, seed: u64) -> Report {
             }
         }
     }
+    // ---- cluster histories with a delayed AppendEntriesResponse (five real nodes)
+    {
+        let lens: &[usize] = if thorough { &[1, 2, 3, 4, 5] } else { &[1, 2, 4] };
+        for &stale_len in lens { for &mid_len in lens { for &new_len in lens { for deliver_at in 0..=3u8 {
+            let case = json!({"history": "delayed_ack", "stale_len": stale_len, "mid_len": mid_len, "new_len": new_len, "deliver_at": deliver_at});
+            match delayed_ack_history(stale_len, mid_len, new_len, deliver_at) {
+                Ok((advanced, _)) => { cx.rep.eval(advanced || deliver_at > 0); cx.rep.check("C01.history.delayed_ack", true, &|| case.clone(), &String::new); },
+                Err(m) if m.starts_with("setup:") => cx.skipped += 1,
+                Err(m) => cx.rep.check("C01.history.delayed_ack", false, &|| case.clone(), &|| m.clone()),
+            }
+        } } } }
+    }
     // ---- PreVote / TimeoutNow: term monotonicity and vote stability
     for (log, term) in &states {
         for v in &votes {
@@ -443,6 +556,10 @@ pub fn run(tier: Tier, seed: u64) -> Report {
 }
 
 pub fn replay(ob: &str, case: &Value) -> Result<String, String> {
+    if case["history"].as_str() == Some("delayed_ack") {
+        let u = |k: &str| case[k].as_u64().ok_or_else(|| format!("case.{k} missing"));
+        return delayed_ack_history(u("stale_len")? as usize, u("mid_len")? as usize, u("new_len")? as usize, u("deliver_at")? as u8).map(|(_, d)| format!("history is safe at every step; {d}"));
+    }
     let pre = Pre::from_json(&case["pre"]).ok_or("case.pre malformed")?;
     let msgs: Vec<Msg> = case["msgs"].as_array().ok_or("case.msgs missing")?.iter().map(Msg::from_json).collect::<Option<Vec<_>>>().ok_or("case.msgs malformed")?;
     let mut flags = vec![];
